@@ -583,6 +583,15 @@ class State:
                         for cond in br.cond(sb):
                             if cond[0] == "bin" and cond[1] == "Ge" and self.same_len_base(cond[2], base) and cond[3] == adj and ge1 and edge_dominates(b, (sb, be[0]), blk):
                                 return "P-guarded-index: a[len - k] under len >= k with k = max(_, 1) >= 1"
+        # a[i] with Some(i) = a.len().checked_sub(k), k >= 1: i = len - k < len
+        if len(ix) == 1:
+            x = next(iter(ix))
+            if x[0] == "call" and x[1].endswith("::checked_sub") and len(x[2]) == 2 and x[2][0] and all(self.same_len_base(y, base) for y in x[2][0]):
+                ks2 = x[2][1]
+                ge1 = bool(ks2) and all((k[0] == "call" and k[1] in ("std::cmp::max", "std::cmp::Ord::max") and any(a == fs({("const", 1)}) for a in k[2])) or
+                                         (k[0] == "const" and isinstance(k[1], int) and k[1] >= 1) for k in ks2)
+                if ge1:
+                    return "P-checked-sub-index: a[i] where Some(i) = a.len().checked_sub(k) and k >= 1, so i = len - k < len"
         # self.inputs[k] in Signature::validate (arity-equal)
         if b.deff == "functions::Signature::validate" and base == {("field", ("param", 1), "inputs")} and \
                 ix == {("index", ("param", 2))}:
